@@ -300,7 +300,7 @@ func (channel *Channel) publishCurrentMessage() *amqp.Error {
 	channel.server.GetMetrics().Publish.Counter.Inc(1)
 	channel.metrics.Publish.Counter.Inc(1)
 
-	if channel.confirmMode {
+	if channel.confirmMode && message.ConfirmMeta != nil {
 		message.ConfirmMeta.ExpectedConfirms = len(matchedQueues)
 	}
 
@@ -324,7 +324,7 @@ func (channel *Channel) publishCurrentMessage() *amqp.Error {
 
 		ex.GetMetrics().MsgOut.Counter.Inc(1)
 
-		if channel.confirmMode && message.ConfirmMeta.CanConfirm() && !message.IsPersistent() {
+		if channel.confirmMode && message.ConfirmMeta != nil && message.ConfirmMeta.CanConfirm() && !message.IsPersistent() {
 			channel.addConfirm(message.ConfirmMeta)
 		}
 	}
@@ -388,7 +388,7 @@ func (channel *Channel) SendContent(method amqp.Method, message *amqp.Message) *
 }
 
 func (channel *Channel) addConfirm(meta *amqp.ConfirmMeta) {
-	if !channel.confirmMode {
+	if !channel.confirmMode || meta == nil {
 		return
 	}
 	channel.confirmLock.Lock()
